@@ -382,23 +382,29 @@ theorem agg_absorbing {ρ : String → K} (isAnd : Bool) {F : List (Exp (Ext K))
 theorem ofBool_truthy_of01 {w : K} (h : w = 0 ∨ w = 1) : ofBool (truthy w) = w := by
   rcases h with rfl | rfl <;> simp [truthy_eq]
 
-theorem naryCore_sound {ρ : String → K} (isAnd : Bool) {cs : List (Exp (Ext K))}
+/-- the n-ary step, parametric in the invariant `G` carried through the induction
+(`LogicOperands01 ρ`, or the finer `ExactOK ρ` of `ExpLemmasTruth`). -/
+theorem naryCore_sound_gen {ρ : String → K} (G : Exp (Ext K) → Prop)
+    (G_mk : ∀ (isAnd : Bool) (es : List (Exp (Ext K))),
+      G (mkNary isAnd es) ↔ (∀ e ∈ es, G e) ∧ ∀ o ∈ es, Is01 (eval ρ o))
+    (G_num : ∀ x, G (.num x))
+    (isAnd : Bool) {cs : List (Exp (Ext K))}
     (hdef : ∀ c ∈ cs, Def ρ c) (h01 : ∀ c ∈ cs, Is01 (eval ρ c))
-    (hLO : ∀ c ∈ cs, LogicOperands01 ρ c) :
+    (hLO : ∀ c ∈ cs, G c) :
     eval ρ (naryCore isAnd cs) = some (ofBool (agg ρ isAnd cs)) ∧
-      LogicOperands01 ρ (naryCore isAnd cs) := by
-  have hF : ∀ x ∈ naryFlatten isAnd cs, Def ρ x ∧ Is01 (eval ρ x) ∧ LogicOperands01 ρ x := by
+      G (naryCore isAnd cs) := by
+  have hF : ∀ x ∈ naryFlatten isAnd cs, Def ρ x ∧ Is01 (eval ρ x) ∧ G x := by
     intro x hx
     rcases mem_naryFlatten.1 hx with ⟨h1, _⟩ | ⟨inner, h1, h2⟩
     · exact ⟨hdef x h1, h01 x h1, hLO x h1⟩
     · have hd := ((eval_nary_iff isAnd).1 (eval_of_Def (hdef _ h1))).1
-      have hl := (LO_mkNary ρ isAnd inner).1 (hLO _ h1)
+      have hl := (G_mk isAnd inner).1 (hLO _ h1)
       exact ⟨hd x h2, hl.2 x h2, hl.1 x h2⟩
   have hagg := agg_flatten isAnd hdef
   -- successful scan: same truth value, elements keep their properties
   have hres : ∀ res, naryScan isAnd (naryFlatten isAnd cs) = some res →
       agg ρ isAnd res = agg ρ isAnd cs ∧
-      ∀ x ∈ res, Def ρ x ∧ Is01 (eval ρ x) ∧ LogicOperands01 ρ x := by
+      ∀ x ∈ res, Def ρ x ∧ Is01 (eval ρ x) ∧ G x := by
     intro res hs
     have hfil := naryScan_some hs
     constructor
@@ -420,10 +426,10 @@ theorem naryCore_sound {ρ : String → K} (isAnd : Bool) {cs : List (Exp (Ext K
     rw [absorbing_iff] at ha
     have ht : tv ρ (.num v) = !isAnd := by rw [tv_num (hF _ hv).1, ha]
     rw [h2, ← hagg, agg_absorbing isAnd hv ht]
-    refine ⟨?_, LO_num _ _⟩
+    refine ⟨?_, G_num _⟩
     cases isAnd <;> simp [eval]
   · rw [h2, ← (hres _ h1).1, agg_nil]
-    exact ⟨eval_logicNumber ρ isAnd, LO_num _ _⟩
+    exact ⟨eval_logicNumber ρ isAnd, G_num _⟩
   · obtain ⟨hag, hel⟩ := hres _ h1
     obtain ⟨hd, h1', hlo⟩ := hel e (by simp)
     rw [h2]
@@ -435,7 +441,14 @@ theorem naryCore_sound {ρ : String → K} (isAnd : Bool) {cs : List (Exp (Ext K
   · obtain ⟨hag, hel⟩ := hres _ h1
     rw [h2, ← hag]
     exact ⟨(eval_nary_iff isAnd).2 ⟨fun x hx => (hel x hx).1, rfl⟩,
-      (LO_mkNary ρ isAnd res).2 ⟨fun x hx => (hel x hx).2.2, fun x hx => (hel x hx).2.1⟩⟩
+      (G_mk isAnd res).2 ⟨fun x hx => (hel x hx).2.2, fun x hx => (hel x hx).2.1⟩⟩
+
+theorem naryCore_sound {ρ : String → K} (isAnd : Bool) {cs : List (Exp (Ext K))}
+    (hdef : ∀ c ∈ cs, Def ρ c) (h01 : ∀ c ∈ cs, Is01 (eval ρ c))
+    (hLO : ∀ c ∈ cs, LogicOperands01 ρ c) :
+    eval ρ (naryCore isAnd cs) = some (ofBool (agg ρ isAnd cs)) ∧
+      LogicOperands01 ρ (naryCore isAnd cs) :=
+  naryCore_sound_gen (LogicOperands01 ρ) (LO_mkNary ρ) (LO_num ρ) isAnd hdef h01 hLO
 
 /-! ### `LogicOperands01` is preserved by the node-level rules -/
 
